@@ -337,6 +337,20 @@ def run(tier, seed):
     st = par.pmap(work, tasks, extra=(tier,), chunk=1)
     cc = cli_cases(tier)
     par.pmap(work_cli, cc, stats=st)
+    vcases = []
+    for family, pol, peer, fmt in H.pick(cc, seed, 16 if tier == 'quick' else 80):
+        path = H.tmp_path('c06-val-%d.txt' % len(vcases))
+        with open(path, 'w') as f:
+            f.write(R.policy_text(pol))
+
+        def mk(peer=peer):
+            hk = {}
+            for t, v in peer['host_keys'].items():
+                hk[t] = wire.rsa_blob_tree(v['hostkey_size']) if 'rsa' in t else wire.ed25519_blob_tree()
+            gex = P.GexPolicy([list(peer['dh'].values())[0]], P.STRICT) if peer['dh'] else None
+            return P.Server(kex=list(peer['kex']), key=peer['key'], enc=peer['ciphers'], mac=peer['macs'], banner=peer['banner'].encode(), comp=peer['compressions'], host_keys=hk, gex=gex)
+        vcases.append({'label': 'policy %s' % family, 'opts': ['-n', '-P', path] + (['-j'] if fmt == 'json' else []), 'make': mk})
+    validated = H.validate_traces(vcases, st)
     return evidence.finish(
         PID, tier, seed, st, t0,
         rule='direct calls of Policy.evaluate on policies built by the real constructor from generated policy text and peers built by the real '
@@ -346,7 +360,7 @@ def run(tier, seed):
              'pair; plus %d (policy, peer) pairs through the CLI (-P, text and JSON)' % (
                  2 if tier == 'quick' else 3, 2 if tier == 'quick' else 3, ' (every 4th)' if tier == 'quick' else '', SIZES, len(cc)),
         assumptions=['reference model: refmodels/policy.py', 'error lists compared as sets of (field, expected, optional, actual)'],
-        exhaustive=(tier != 'quick'), extra={'cli_pairs': len(cc)})
+        exhaustive=(tier != 'quick'), traces_validated=validated, extra={'cli_pairs': len(cc)})
 
 
 def replay(path):
